@@ -334,10 +334,11 @@ def graph_fn(g):
     """g = {'n': k, 'edges': [[i, j, vol], ...], 'comps': [...]} -> function building the nx.DiGraph"""
     def f():
         G = nx.DiGraph()
+        lab = g.get('labels') or list(range(g['n']))      # 'labels': node names as a workflow file may carry them ('cal_1', 'img_1')
         for i in range(g['n']):
-            G.add_node(i, comp=(g.get('comps') or [0] * g['n'])[i], dur=(g.get('durs') or [1] * g['n'])[i])
+            G.add_node(lab[i], comp=(g.get('comps') or [0] * g['n'])[i], dur=(g.get('durs') or [1] * g['n'])[i])
         for (i, j, v) in g.get('edges', []):
-            G.add_edge(i, j, transfer_data=v)
+            G.add_edge(lab[i], lab[j], transfer_data=v)
         return G
     return f
 
